@@ -394,6 +394,17 @@ def rule_PK(ctx):
             after = [s for s in pk.node.body if s.lineno > t.end_lineno]
             if any(isinstance(s, ast.Raise) for s in after) and set(G.raises_in(after)) <= {'CreationError', 'ValueError'}:
                 many = True
+    if not many:
+        # the same check written with a default: `if next(values, SENTINEL) is not SENTINEL: raise CreationError(...)`
+        for x in own_walk(pk.node):
+            if isinstance(x, ast.If) and G.raises_in(x.body) and set(G.raises_in(x.body)) <= {'CreationError', 'ValueError'}:
+                for d in ast.walk(x.test):
+                    if isinstance(d, ast.Compare) and len(d.ops) == 1 and isinstance(d.ops[0], (ast.IsNot, ast.NotEq)):
+                        a, b = d.left, d.comparators[0]
+                        for u, v in ((a, b), (b, a)):
+                            if isinstance(u, ast.Call) and isinstance(u.func, ast.Name) and u.func.id == 'next' and len(u.args) == 2 \
+                                    and ast.unparse(u.args[1]) == ast.unparse(v):
+                                many = True
     if not few:
         r.fail(pk.key, 'too few values -> CreationError', 'running out of values while packing must raise CreationError (StopIteration must not escape or be swallowed)',
                loc=pk.loc())
